@@ -1,7 +1,8 @@
 package main
 
 // C12 — the token endpoint over the full product of the property's quantifier (the same
-// enumeration as Model/OIDCEnum.v), the authorization step, and userinfo; decoded ID tokens
+// enumeration as Model/OIDCEnum.v), the authorization step (incl. the audience parameter x the
+// client's allow_client_chose_audiences flag, each followed by the redemption of the code), and userinfo; decoded ID tokens
 // verified under the served JWKS (key selected by kid); the same flows once per signer
 // configuration (RSA-3072, P-256, P-384, P-521, each with an Ed25519 SSH CA alongside).
 
@@ -40,6 +41,9 @@ const (
 	c12V            = "verifier-correct-0123456789abcdefghijklmnopqrstuvwxyz"
 	c12W            = "verifier-wrong-9876543210zyxwvutsrqponmlkjihgfedcba"
 	c12Nonce        = "nonce-abcdef"
+	c12ClientC      = "clientC" // has a secret, may NOT choose audiences
+	c12SecretC      = "secret-of-C"
+	c12ClientD      = "clientD" // secret-less, may choose audiences, two domains
 )
 
 func c12Config(c *AppConfigFile, dir string) {
@@ -47,6 +51,8 @@ func c12Config(c *AppConfigFile, dir string) {
 	c.OpenIDConnectIDP.Client = []OpenIDConnectClientConfig{
 		{ClientID: c04ClientA, ClientSecret: c04SecretA, AllowedRedirectDomains: []string{"apps.example"}, AllowClientChosenAudiences: true},
 		{ClientID: c04ClientB, ClientSecret: "", AllowedRedirectDomains: []string{"apps.example"}},
+		{ClientID: c12ClientC, ClientSecret: c12SecretC, AllowedRedirectDomains: []string{"apps.example"}},
+		{ClientID: c12ClientD, ClientSecret: "", AllowedRedirectDomains: []string{"apps.example", "svc.example"}, AllowClientChosenAudiences: true},
 	}
 }
 
@@ -792,8 +798,9 @@ func (x *c12Run) runAuthz(s *c12Site, label, method string, q url.Values) c12Aut
 		ok, _, err := cc.CanRedirectToURL(q.Get("redirect_uri"))
 		redirectOK = ok && err == nil
 		if q.Get("audience") != "" {
+			// the client's allow_client_chose_audiences flag is part of the model's client record
 			a, err := cc.CorsOriginAllowed(q.Get("audience"))
-			audOK = cc.RequestedAudienceIsAllowed(q.Get("audience")) && a && err == nil
+			audOK = a && err == nil
 		}
 	}
 	var req *http.Request
@@ -860,9 +867,199 @@ func c12CoqAuthz(name, idp string, authz []c12Authz) string {
 	return sb.String()
 }
 
+// ---------------------------------------------------------------- the audience dimension
+
+// the values of the authorization request's "audience" parameter, in the order sent
+var c12AudienceVariants = []struct {
+	name   string
+	values []string
+}{
+	{"no-audience", nil},
+	{"under-client-domains", []string{c12Audience}},
+	{"under-second-domain", []string{"https://api.svc.example"}},
+	{"foreign", []string{"https://api.evil.example"}},
+	{"lookalike-suffix", []string{"https://api.apps.example.evil.example"}},
+	{"http-scheme", []string{"http://api.apps.example"}},
+	{"with-path-and-query", []string{"https://api.apps.example/v1?x=1"}},
+	{"empty", []string{""}},
+	{"several-allowed-first", []string{c12Audience, "https://api.evil.example"}},
+	{"several-foreign-first", []string{"https://api.evil.example", c12Audience}},
+	{"several-both-allowed", []string{c12Audience, "https://other.apps.example"}},
+	{"several-empty-first", []string{"", c12Audience}},
+}
+
+var c12FlowClients = []struct {
+	id, secret string
+	allows     bool
+	domains    []string
+}{
+	{c04ClientA, c04SecretA, true, []string{"apps.example"}},
+	{c04ClientB, "", false, []string{"apps.example"}},
+	{c12ClientC, c12SecretC, false, []string{"apps.example"}},
+	{c12ClientD, "", true, []string{"apps.example", "svc.example"}},
+}
+
+type c12Flow struct {
+	coq        string // the token request
+	t0, t1     int64
+	released   bool
+	idt, act   *symTok
+	userinfo   string
+	uiAnswered bool
+	label      string
+}
+
+// the harness's own reading of "an https URL under one of the client's domains"
+func c12UnderDomains(raw string, domains []string) bool {
+	u, err := url.Parse(raw)
+	if err != nil || u.Scheme != "https" {
+		return false
+	}
+	for _, d := range domains {
+		if u.Hostname() == d || strings.HasSuffix(u.Hostname(), "."+d) {
+			return true
+		}
+	}
+	return false
+}
+
+func c12StrList(v interface{}) ([]string, bool) {
+	if v == nil {
+		return nil, true
+	}
+	l, isList := v.([]interface{})
+	if !isList {
+		return nil, false
+	}
+	var out []string
+	for _, e := range l {
+		s, isStr := e.(string)
+		if !isStr {
+			return nil, false
+		}
+		out = append(out, s)
+	}
+	return out, true
+}
+
+// client {allows chosen audiences, does not} x {secret, secret-less} x audience parameter {absent,
+// under the client's domains, foreign, near misses, several values}: the real authorization endpoint
+// (a case of the authorization correspondence), then the redemption of the code with the client's
+// credentials in header and form (a flow case), then userinfo
+func (x *c12Run) runAudienceFlows(s *c12Site, authz *[]c12Authz) []c12Flow {
+	var flows []c12Flow
+	env := s.env
+	userinfoURL := s.issuer + idpOpenIDCUserinfoPath
+	for _, cl := range c12FlowClients {
+		for _, av := range c12AudienceVariants {
+			q := c12With("client_id", cl.id)
+			if cl.secret == "" {
+				q.Set("code_challenge", c12S256(c12V))
+				q.Set("code_challenge_method", "S256")
+			}
+			if av.values != nil {
+				q["audience"] = av.values
+			}
+			label := fmt.Sprintf("audience flow: client=%s audience=%s %q", cl.id, av.name, av.values)
+			a := x.runAuthz(s, label, "GET", q)
+			*authz = append(*authz, a)
+			first := q.Get("audience")
+			what := map[string]interface{}{"client": cl.id, "allow_client_chose_audiences": cl.allows, "audience_values": av.values, "variant": av.name}
+			if a.tok == nil {
+				continue
+			}
+			// the authorization step binds the first value, and only for a client that may choose, and only under its domains
+			bound, isList := c12StrList(a.tok.claims["access_audience"])
+			switch {
+			case !isList || len(bound) > 1 || (len(bound) == 1 && bound[0] != first) || (len(bound) == 0 && first != ""):
+				x.hit("C12:authorize:audience-bound:"+av.name, "the code carries exactly the audience the request named first, or none", fmt.Sprintf("code carries access_audience %v for audience values %q", a.tok.claims["access_audience"], av.values), what, nil)
+			case len(bound) == 1 && !cl.allows:
+				x.hit("C12:authorize:audience-bound:client-may-not-choose", "only a client with allow_client_chose_audiences gets an audience bound into its code", fmt.Sprintf("code for %s carries access_audience %v", cl.id, bound), what, nil)
+			case len(bound) == 1 && !c12UnderDomains(bound[0], cl.domains):
+				x.hit("C12:authorize:audience-bound:outside-client-domains", "a chosen audience is an https URL under the client's domains", fmt.Sprintf("code for %s carries access_audience %v", cl.id, bound), what, nil)
+			}
+			for _, loc := range []string{"header", "form", "form-wrong-proof"} {
+				form := url.Values{"grant_type": {"authorization_code"}, "code": {a.tok.raw}, "redirect_uri": {c12RedirectSame}}
+				verifier, vh, secret := "", "", cl.secret
+				if cl.secret == "" {
+					verifier = c12V
+					if loc == "form-wrong-proof" {
+						verifier = c12W
+					}
+					vh = c12S256(verifier)
+					form.Set("code_verifier", verifier)
+				} else if loc == "form-wrong-proof" {
+					secret = c12WrongSecret
+				}
+				basicCoq, fc, fs := "None", "", ""
+				if loc != "header" {
+					fc, fs = cl.id, secret
+					form.Set("client_id", cl.id)
+					if secret != "" {
+						form.Set("client_secret", secret)
+					}
+				}
+				req := verifNewRequest("POST", idpOpenIDCTokenPath, form)
+				if loc == "header" {
+					req.SetBasicAuth(url.QueryEscape(cl.id), url.QueryEscape(cl.secret))
+					basicCoq = fmt.Sprintf("Some (%s, %s)", coqStr(cl.id), coqStr(cl.secret))
+				}
+				f0 := time.Now().UnixNano()
+				rr, _ := env.serve(req)
+				f1 := time.Now().UnixNano()
+				var tr tokenResponse
+				ok := rr.Code == 200 && json.Unmarshal(rr.Body.Bytes(), &tr) == nil && tr.IDToken != ""
+				fl := c12Flow{t0: f0, t1: f1, released: ok, label: fmt.Sprintf("%s credentials=%s\tstatus=%d released=%v", label, loc, rr.Code, ok)}
+				fl.coq = fmt.Sprintf("{| tr_post := true; tr_grant := %s; tr_redirect := %s; tr_code := %s; tr_verifier := %s; tr_vhash := %s; tr_basic := %s; tr_form_client := %s; tr_form_secret := %s |}",
+					coqStr("authorization_code"), coqStr(c12RedirectSame), env.coqToken(a.tok), coqStr(verifier), coqStr(vh), basicCoq, coqStr(fc), coqStr(fs))
+				x.res.eval("audience-flow|"+cl.id+"|"+av.name+"|"+loc+fmt.Sprint(ok), true)
+				x.res.bump("audience-flow")
+				if ok && loc == "form-wrong-proof" {
+					x.hit("C12:released:"+map[bool]string{true: "pkce-not-matched", false: "secret-not-shown"}[cl.secret == ""], "the token endpoint released tokens to a caller that did not prove to be the client of a fresh code with the bound redirect URI",
+						"tokens released for a code with a chosen audience although the caller showed a wrong secret / verifier", what, map[string]interface{}{"status": rr.Code})
+				}
+				if ok {
+					x.res.bump("audience-flow-released")
+					fl.idt = newSymTok(tr.IDToken, s.sid, false, "id(audience flow)")
+					fl.act = newSymTok(tr.AccessToken, s.sid, false, "access(audience flow)")
+					w := map[string]interface{}{"client": cl.id, "allow_client_chose_audiences": cl.allows, "audience_values": av.values, "variant": av.name, "credentials": loc}
+					// the ID token names the client as SOLE audience: the list is exactly [client]
+					idAud, isList := c12StrList(fl.idt.claims["aud"])
+					if !isList || len(idAud) != 1 || idAud[0] != cl.id {
+						x.hit("C12:idtoken-audience-not-sole:"+av.name, "the ID token names the client the code was issued to as its sole audience: aud = [client], whatever audience the authorization request named",
+							fmt.Sprintf("ID token for %s has aud = %v (authorization request carried audience values %q)", cl.id, fl.idt.claims["aud"], av.values), w,
+							map[string]interface{}{"id_token_claims": fl.idt.claims})
+					}
+					// the access token: no audience, or exactly [the chosen one, the userinfo URL]
+					acAud, isList := c12StrList(fl.act.claims["aud"])
+					want := []string(nil)
+					if first != "" {
+						want = []string{first, userinfoURL}
+					}
+					if !isList || strings.Join(acAud, "\x00") != strings.Join(want, "\x00") || len(acAud) != len(want) {
+						x.hit("C12:access-audience:"+av.name, "the access token has no audience list, or exactly [the audience bound at the authorization step, the userinfo URL]",
+							fmt.Sprintf("access token for %s has aud = %v, expected %v", cl.id, fl.act.claims["aud"], want), w, map[string]interface{}{"access_token_claims": fl.act.claims})
+					}
+					if v, _ := fl.idt.claims["sub"].(string); v != "alice" {
+						x.hit("C12:idtoken:subject", "the ID token names the user of the authorization step", fmt.Sprintf("subject %q, logged in was alice", v), w, nil)
+					}
+					u, answered, _ := s.userinfoOf(tr.AccessToken)
+					fl.userinfo, fl.uiAnswered = u, answered
+					if !answered || u != "alice" {
+						x.hit("C12:userinfo:subject", "the access token must make userinfo return the user of the authorization step",
+							fmt.Sprintf("userinfo answered %q (answered=%v) for the access token of a code minted for alice", u, answered), w, nil)
+					}
+				}
+				flows = append(flows, fl)
+			}
+		}
+	}
+	return flows
+}
+
 func TestVerif_C12(t *testing.T) {
 	verifWriteConsts(t)
-	res := newVerifResult("token endpoint over the full product: caller {client with secret, secret-less client, unknown} x secret {right, wrong, none} x verifier {right, wrong, none} x challenge bound into the code {S256, plain, empty method, unknown method, none} x redirect_uri {same, other, absent, empty, same with trailing slash, same in upper case, sent twice same first, sent twice other first} x code {fresh, expired, tampered, issued to the other client, a session cookie, an access token} x credentials in {header, form, header url-escaped} = 19440 requests (codes from the real authorize endpoint where it admits the challenge method, otherwise signed in-package); the sub-product of 288 requests plus 9 authorization requests on each of four more daemon states (signer RSA-3072, P-256, P-384, P-521, each with an Ed25519 SSH CA; key files through the configuration surface), KeymasterPublicKeys / JWKS / discovery of each compared with the model, two key-file sets the daemon must refuse; every released ID token decoded and verified under the published key its kid names, every released access token taken to userinfo; ~70 authorization requests; ~60 userinfo probes (other kinds, audiences, header/form/query); non-trivial = the request passed client lookup; distinct by combination")
+	res := newVerifResult("token endpoint over the full product: caller {client with secret, secret-less client, unknown} x secret {right, wrong, none} x verifier {right, wrong, none} x challenge bound into the code {S256, plain, empty method, unknown method, none} x redirect_uri {same, other, absent, empty, same with trailing slash, same in upper case, sent twice same first, sent twice other first} x code {fresh, expired, tampered, issued to the other client, a session cookie, an access token} x credentials in {header, form, header url-escaped} = 19440 requests (codes from the real authorize endpoint where it admits the challenge method, otherwise signed in-package); the sub-product of 288 requests plus 9 authorization requests on each of four more daemon states (signer RSA-3072, P-256, P-384, P-521, each with an Ed25519 SSH CA; key files through the configuration surface), KeymasterPublicKeys / JWKS / discovery of each compared with the model, two key-file sets the daemon must refuse; every released ID token decoded and verified under the published key its kid names, every released access token taken to userinfo; ~70 authorization requests; audience flows: 4 clients {allow_client_chose_audiences or not} x {secret, PKCE} x 12 shapes of the authorization request's audience parameter {absent, under the client's domains, foreign, near misses, several values}, every issued code redeemed with header / form / wrong credentials, ID token audience compared with [client] and access token audience with [chosen, userinfo] for exact equality; ~60 userinfo probes (other kinds, audiences, header/form/query); non-trivial = the request passed client lookup; distinct by combination")
 	env := verifSetup(t, c12Config)
 	st := env.state
 	sid := env.signerKeyID()
@@ -1171,6 +1368,10 @@ func TestVerif_C12(t *testing.T) {
 		}
 	}
 
+	// ---- the audience parameter x client configuration, each followed by the redemption of the code
+	flows := x.runAudienceFlows(main, &authz)
+	res.Extra["audience_flows"] = len(flows)
+
 	// ---- userinfo probes
 	type uiCase struct {
 		tok      *symTok
@@ -1360,6 +1561,27 @@ func TestVerif_C12(t *testing.T) {
 	sb.WriteString("].\nDefinition c12_token_mismatches := Eval vm_compute in mismatches (token_bad c12_idp) token_cases.\nPrint c12_token_mismatches.\n")
 	sb.WriteString(c12CoqAuthz("authorize_cases", "c12_idp", authz))
 	sb.WriteString("Definition c12_authorize_mismatches := Eval vm_compute in mismatches (authorize_bad c12_idp) authorize_cases.\nPrint c12_authorize_mismatches.\n")
+	sb.WriteString("Definition flow_cases : list flow := [\n")
+	for i, f := range flows {
+		sep := ";"
+		if i == len(flows)-1 {
+			sep = ""
+		}
+		obs := "None"
+		if f.released {
+			ui := "None"
+			if f.uiAnswered {
+				ui = "Some " + coqStr(f.userinfo)
+			}
+			obs = fmt.Sprintf("Some (%s, %s, %s)", env.coqClaims(f.idt), env.coqClaims(f.act), ui)
+		}
+		sb.WriteString(fmt.Sprintf(" (%s, (%d)%%Z, (%d)%%Z, %s)%s\n", f.coq, f.t0, f.t1, obs, sep))
+	}
+	sb.WriteString("].\nDefinition c12_flow_mismatches := Eval vm_compute in mismatches (flow_bad c12_idp) flow_cases.\nPrint c12_flow_mismatches.\n")
+	// the property's own predicate on the observations of the mismatching cases
+	sb.WriteString("Definition c12_violating := Eval vm_compute in violating_of (flow_bad c12_idp) (flow_violating c12_idp) flow_cases.\nPrint c12_violating.\n")
+	sb.WriteString("Definition c12_violating_access := Eval vm_compute in violating_of (flow_bad c12_idp) (flow_violating_access c12_idp) flow_cases.\nPrint c12_violating_access.\n")
+	sb.WriteString(fmt.Sprintf("Definition c12_release_violating := Eval vm_compute in release_violating_on all_combos c12_idp c12_env (%d)%%Z (%d)%%Z released_cases.\nPrint c12_release_violating.\n", t0, t1))
 	sb.WriteString("Definition userinfo_cases : list (token * Z * Z * option bs) := [\n")
 	for i, u := range uis {
 		sep := ";"
@@ -1385,6 +1607,16 @@ func TestVerif_C12(t *testing.T) {
 		ioutil.WriteFile(filepath.Join(verifOut(), file), []byte(ix.String()), 0644)
 	}
 	numbered("CasesC12.idx", prodIndex)
+	// the released cases are a sub-list of the product: their own index, each line = the product line of the combination
+	var relIndex []string
+	for _, r := range rel {
+		line := fmt.Sprintf("released combination %d of the product", r.idx)
+		if r.idx >= 0 && r.idx < len(prodIndex) {
+			line = prodIndex[r.idx]
+		}
+		relIndex = append(relIndex, line)
+	}
+	numbered("CasesC12_released.idx", relIndex)
 	numbered("CasesC12_signers.idx", signerIndex)
 	numbered("CasesC12_signer_released.idx", signerRelIndex)
 	numbered("CasesC12_signer_authorize.idx", signerAuthzIndex)
@@ -1402,6 +1634,11 @@ func TestVerif_C12(t *testing.T) {
 	numbered("CasesC12_token.idx", ixT)
 	numbered("CasesC12_authorize.idx", ixA)
 	numbered("CasesC12_userinfo.idx", ixU)
+	var ixF []string
+	for _, f := range flows {
+		ixF = append(ixF, f.label)
+	}
+	numbered("CasesC12_flows.idx", ixF)
 	// observations outside the statement: what discovery advertises vs. what the tokens are signed with
 	disc := map[string]interface{}{}
 	for _, s := range append([]*c12Site{main}, func() []*c12Site {
